@@ -15,7 +15,8 @@ RULE = ('cases are constructor inputs: (objects, properties, rows) triples and s
         'empty string on one side only is valid), drop / add a row, shorten / extend one row incl. '
         'the ragged case whose length set still contains the right length, shorten / extend all rows, empty name '
         'lists; for dicts also delete a key, replace a name by int / None / bytes / tuple / list, column index == '
-        'len(properties), -1, repeated index, lattice = [] / (), require_lattice without lattice, extra keys, tuple '
+        'len(properties), -1, repeated index, lattice = [] / (), require_lattice without lattice, each also combined with '
+        'ignore_lattice=True, extra keys, tuple '
         'vs list, unsorted rows). Systematic part: every table with n*m <= 6 (quick) / <= 9 (thorough) x every '
         'single corruption instance x every ordered pair of corruption kinds; Hypothesis part: fill families with '
         'cells drawn from truthy / falsy values of several types. Oracle: an independent predicate listing the broken '
@@ -164,6 +165,9 @@ def corrupt_dict(t, kind, pos):
     if kind == 'require_lattice':
         out['require_lattice'] = True
         return out
+    if kind == 'ignore_lattice':      # an option, not a corruption: every rule still applies
+        out['ignore_lattice'] = True
+        return out
     if kind == 'extra_key':
         d['comment'] = 'x'
         return out
@@ -241,7 +245,7 @@ def corrupt_dict(t, kind, pos):
     return out
 
 
-DICT_KINDS = ['delete_key', 'require_lattice', 'extra_key', 'empty_lattice', 'bad_name', 'index_eq_len', 'index_negative',
+DICT_KINDS = ['delete_key', 'require_lattice', 'ignore_lattice', 'extra_key', 'empty_lattice', 'bad_name', 'index_eq_len', 'index_negative',
               'index_repeated', 'drop_context_row', 'add_context_row', 'drop_object', 'drop_object_and_row',
               'dup_object_and_row', 'dup_property', 'drop_last_property', 'overlap', 'empty_label', 'overlap_empty_label', 'empty_objects', 'empty_properties',
               'reverse_rows', 'as_tuples']
@@ -271,9 +275,10 @@ def run_input(inp, ctx, applied=()):
                 d[k] = type(d[k])(decode_name(x) for x in d[k])
         req = bool(inp.get('require_lattice'))
         broken = dict_rules(inp['d'], req)
-        call = lambda: concepts.Context.fromdict(d, require_lattice=req)
+        ign = bool(inp.get('ignore_lattice'))
+        call = lambda: concepts.Context.fromdict(d, require_lattice=req, ignore_lattice=ign)
         site = 'fromdict()'
-        special = bool(set(applied) & {'extra_key', 'reverse_rows', 'as_tuples', 'empty_label'})
+        special = bool(set(applied) & {'extra_key', 'reverse_rows', 'as_tuples', 'empty_label', 'ignore_lattice'})
     case = {'input': inp, 'applied': list(applied)}
     nt = len(broken) == 1 or (not broken and special)
     classes = [inp['kind']] + (sorted('rule:' + b for b in broken) if broken else ['valid'])
@@ -300,7 +305,8 @@ def run_input(inp, ctx, applied=()):
         m = len(dd['properties'])
         want = (tuple(dd['objects']), tuple(dd['properties']),
                 [tuple(j in set(r) for j in range(m)) for r in dd['context']])
-        ctx.check(('lattice' in c.__dict__) == (dd.get('lattice') is not None), site + '/lattice-presence', case,
+        ctx.check(('lattice' in c.__dict__) == (dd.get('lattice') is not None and not inp.get('ignore_lattice')),
+                  site + '/lattice-presence', case,
                   'stored lattice attached / missing contrary to the input')
     got = (c.objects, c.properties, c.bools)
     ctx.check(got == want, site + '/representation', case, lambda: f'accepted input is represented as {got!r}, want {want!r}')
